@@ -461,7 +461,7 @@ def mpf_nthroot(s, n, prec, rnd=round_fast):
         fn = from_int(n)
         nth = mpf_rdiv_int(1, fn, prec2)
         r = mpf_pow(s, nth, prec2, rnd)
-        s = normalize(r[0], r[1], r[2], r[3], prec, rnd)
+        s = mpf_pos(r, prec, rnd)
         if flag_inverse:
             return mpf_div(fone, s, prec-extra_inverse, rnd)
         else:
